@@ -48,6 +48,8 @@ pub fn replay(args: &[String]) {
         let alg = v["alg"].as_str().unwrap().to_string();
         let mode = v["mode"].as_str().unwrap();
         let n_assert = v["assertions"].as_u64().unwrap() as usize;
+        let kind = v["kind"].as_str().unwrap_or("cbor").to_string();
+        let repeat = v["repeat"].as_u64().unwrap_or(0) as usize;
         let title = format!("c03 {} é", word(&mut rng, 6));
         let gen_name = format!("vh-{}", word(&mut rng, 4));
         let mut assertions = vec![json!({"label": "c2pa.actions", "data": {"actions": [{"action": "c2pa.created", "digitalSourceType": "http://cv.iptc.org/newscodes/digitalsourcetype/digitalCapture"}]}})];
@@ -55,8 +57,20 @@ pub fn replay(args: &[String]) {
         for i in 0..n_assert {
             let label = format!("org.{}.{}", word(&mut rng, 5), ["meta", "info.v2", "x_y", "a-b"][i % 4]);
             let data = payload(v["payload"].as_str().unwrap(), &mut rng);
-            assertions.push(json!({"label": label, "data": data}));
+            let mut a = json!({"label": label, "data": data});
+            if kind == "json" { a["kind"] = json!("Json"); }
+            assertions.push(a);
             supplied.push((label, data));
+        }
+        // further instances of the first custom label (label__1, label__2, .. inside the store)
+        if let Some((l0, _)) = supplied.first().cloned() {
+            for _ in 0..repeat {
+                let data = payload(v["payload"].as_str().unwrap(), &mut rng);
+                let mut a = json!({"label": l0, "data": data});
+                if kind == "json" { a["kind"] = json!("Json"); }
+                assertions.push(a);
+                supplied.push((l0.clone(), data));
+            }
         }
         let mut def = json!({"title": title, "format": mime, "claim_generator_info": [{"name": gen_name, "version": "1.2.3"}], "assertions": assertions});
         if v["claim_version"].as_u64() == Some(1) { def["claim_version"] = json!(1); }
@@ -97,13 +111,24 @@ pub fn replay(args: &[String]) {
                     if v["claim_version"].as_u64() == Some(1) && m.format() != Some(mime) { problems.push(format!("format {:?} != {mime}", m.format())); }
                     let gi = serde_json::to_value(&m.claim_generator_info).unwrap_or(Value::Null);
                     if !gi.to_string().contains(&gen_name) { problems.push(format!("claim generator {gen_name} missing: {}", gi.to_string().chars().take(80).collect::<String>())); }
+                    // every supplied (label, data) pair is reported, instance by instance (multiset comparison)
+                    let mut reported: Vec<(String, Option<Value>, bool)> = m.assertions().iter().filter(|a| a.label().starts_with("org.")).map(|a| {
+                        let base = a.label().split("__").next().unwrap_or("").to_string();
+                        (base, a.value().ok().cloned(), false)
+                    }).collect();
                     for (label, data) in &supplied {
-                        match m.assertions().iter().find(|a| a.label() == label) {
-                            None => problems.push(format!("assertion {label} missing")),
-                            Some(a) => match a.value() { Ok(val) => if val != data { problems.push(format!("assertion {label} data differs")); }, Err(e) => problems.push(format!("assertion {label} unreadable: {e}")) },
+                        if !reported.iter().any(|(l, _, _)| l == label) { problems.push(format!("assertion {label} missing")); continue; }
+                        match reported.iter_mut().find(|(l, d, used)| l == label && !*used && d.as_ref() == Some(data)) {
+                            Some(x) => x.2 = true,
+                            None => problems.push(format!("assertion {label} data differs")),
                         }
                     }
-                    let extra: Vec<String> = m.assertions().iter().map(|a| a.label().to_string()).filter(|l| l.starts_with("org.") && !supplied.iter().any(|(s, _)| s == l)).collect();
+                    let want_kind = if kind == "json" { "Json" } else { "Cbor" };
+                    for a in m.assertions().iter().filter(|a| a.label().starts_with("org.")) {
+                        if format!("{:?}", a.kind()) != want_kind { problems.push(format!("kind of {} is {:?}, supplied {want_kind}", a.label(), a.kind())); }
+                    }
+                    if m.assertions().iter().filter(|a| a.label().starts_with("org.")).count() != supplied.len() { problems.push(format!("count {} org assertions reported, {} supplied", m.assertions().iter().filter(|a| a.label().starts_with("org.")).count(), supplied.len())); }
+                    let extra: Vec<String> = m.assertions().iter().map(|a| a.label().split("__").next().unwrap_or("").to_string()).filter(|l| l.starts_with("org.") && !supplied.iter().any(|(s, _)| s == l)).collect();
                     if !extra.is_empty() { problems.push(format!("unexpected assertions {extra:?}")); }
                     let want_ing = if ing == "none" { 0 } else { 1 };
                     if m.ingredients().len() != want_ing { problems.push(format!("{} ingredients, expected {want_ing}", m.ingredients().len())); }
